@@ -22,7 +22,7 @@ FLOORS = {"quick": {"waiter_invocations": 20000, "multi_waiter_events": 1500, "f
                        "escapes_matched": 6000, "double_triggers": 20000, "imm_resumes": 20000,
                        "spec_compared": 20000}}
 PROFILE = {"weights": {"timeout": 4, "zero": 1, "wait": 5, "succeed": 3, "fail": 2, "spawn": 2, "join": 3,
-                       "interrupt": 0.7, "cb": 2, "cond": 1.2},
+                       "interrupt": 0.7, "cb": 2, "cond": 1.2, "chain": 0.9, "cbint": 0.2},
            "max_top": 6, "max_child_scripts": 3, "min_ev": 1, "max_ev": 3, "p_exact": 0.85, "p_raise": 0.2,
            "p_catch": 0.6}
 KEYS = ("waiter_invocations", "multi_waiter_events", "failed_events", "escapes_matched", "double_triggers",
@@ -42,6 +42,7 @@ def one_case(ctx, prog):
     mon = kern.Monitor(agenda=False, waiters=True, interrupts=False)
     r = kern.run_on(K, prog, mon=mon)
     viol = list(mon.finish())
+    kern.count_extras(ctx, r)
     sr = kern.run_on(speckernel.K, prog)
     ctx.count("spec_compared")
     viol += kern.spec_violation(r, sr)
